@@ -592,9 +592,63 @@ func (pa *PanicAudit) needsOf(in ssa.Instruction) (kind string, needs []pNeed) {
 		}
 	case *ssa.Panic:
 		return "explicit panic", []pNeed{{Kind: "never", Key: "reached"}}
+	case *ssa.Call:
+		// call through a function-typed struct field that the module itself treats as possibly nil
+		// (it stores nil into it or compares it with nil somewhere): calling nil panics
+		if !x.Call.IsInvoke() && staticCallee(&x.Call) == nil {
+			if u, ok := x.Call.Value.(*ssa.UnOp); ok && u.Op == token.MUL {
+				if fa, ok := u.X.(*ssa.FieldAddr); ok && pa.nilFuncField(fieldOf(fa)) {
+					return "call of a nil function value (field " + vname(fieldOf(fa)) + " can be nil)", []pNeed{{Kind: "nonnil", Key: pkey(x.Call.Value)}}
+				}
+			}
+		}
 	}
 	return "", nil
 }
+
+// nilFuncField: a function-typed field of a module struct into which some non-test function stores nil
+// or which some non-test function compares with nil.
+func (pa *PanicAudit) nilFuncField(f *types.Var) bool {
+	if f == nil {
+		return false
+	}
+	if _, ok := f.Type().Underlying().(*types.Signature); !ok {
+		return false
+	}
+	if nilFuncFields == nil {
+		nilFuncFields = map[*types.Var]bool{}
+		for _, mp := range pa.P.ModPkgs() {
+			for _, g := range pa.P.PkgFuncs(strings.TrimPrefix(mp, modPath+"/")) {
+				if pa.P.InTestFile(g) || pa.P.IsGenerated(g) {
+					continue
+				}
+				instrs(g, func(in ssa.Instruction) {
+					switch x := in.(type) {
+					case *ssa.Store:
+						if isNilConst(x.Val) {
+							if fv := fieldOf(x.Addr); fv != nil {
+								nilFuncFields[fv] = true
+							}
+						}
+					case *ssa.BinOp:
+						if x.Op == token.EQL || x.Op == token.NEQ {
+							for _, pr := range [][2]ssa.Value{{x.X, x.Y}, {x.Y, x.X}} {
+								if isNilConst(pr[1]) {
+									if fv := fieldOf(pr[0]); fv != nil {
+										nilFuncFields[fv] = true
+									}
+								}
+							}
+						}
+					}
+				})
+			}
+		}
+	}
+	return nilFuncFields[f]
+}
+
+var nilFuncFields map[*types.Var]bool
 
 func (pa *PanicAudit) indexNeeds(x, idx ssa.Value) (string, []pNeed) {
 	t := x.Type().Underlying()
